@@ -53,7 +53,16 @@ func fnName(f *ssa.Function) string {
 	}
 	if f.Object() != nil {
 		if tf, ok := f.Object().(*types.Func); ok {
-			return tf.FullName()
+			n := tf.FullName()
+			// strings.Builder and bytes.Buffer are interchangeable append-only string accumulators for
+			// the methods the rules look at; the rules are written for (*bytes.Buffer).
+			if strings.HasPrefix(n, "(*strings.Builder).") {
+				switch m := strings.TrimPrefix(n, "(*strings.Builder)."); m {
+				case "WriteString", "WriteByte", "WriteRune", "Write", "String", "Len", "Grow", "Cap", "Reset":
+					return "(*bytes.Buffer)." + m
+				}
+			}
+			return n
 		}
 	}
 	return f.String()
@@ -669,6 +678,9 @@ func isNamed(t types.Type, pkgPath, name string) bool {
 		return false
 	}
 	o := n.Obj()
+	if pkgPath == "bytes" && name == "Buffer" && o.Name() == "Builder" && o.Pkg() != nil && o.Pkg().Path() == "strings" {
+		return true // see fnName
+	}
 	return o.Name() == name && o.Pkg() != nil && o.Pkg().Path() == pkgPath
 }
 
